@@ -17,7 +17,7 @@ from panic import norm
 
 
 class Explorer:
-    def __init__(self, body, fl, prog, markers=None, kills=None, keep=None, max_states=200000, pure_calls=None):
+    def __init__(self, body, fl, prog, markers=None, kills=None, keep=None, max_states=200000, pure_calls=None, stable=None):
         self.b = body
         self.fl = fl
         self.prog = prog
@@ -31,6 +31,15 @@ class Explorer:
                 self.enum_variants[p] = [v["name"] for v in a["variants"]]
         self.pure = pure_calls or ("contains_key", "has_node", "eq", "ne", "is_ok", "is_err", "is_some", "is_none", "is_nan", "is_empty", "gt", "lt", "ge", "le")
         self.truncated = False
+        # `stable(key)`: facts that survive a loop iteration (tests of parameters); all other facts are forgotten when a
+        # loop header is entered, because the values they speak about change from one iteration to the next
+        self.stable = stable
+        self.headers = set()
+        if stable is not None:
+            for blk in body.normal_blocks():
+                for s_ in body.succ(blk.i):
+                    if body.dominates(s_, blk.i):
+                        self.headers.add(s_)
         self.exit_vals = []
         self._field_enum = {}
 
@@ -86,6 +95,15 @@ class Explorer:
             d = ("binop", op, x, y)
             return ("atom", fmt_desc(d), neg)
         if rv.k == "discr":
+            pty = str(rv.place.ty).lstrip("&").replace("mut ", "").strip()
+            if pty.startswith("std::option::Option<") or pty.startswith("std::result::Result<"):
+                # `match o { Some(..) / None }` tests what `o.is_some()` tests: one key for both spellings
+                from flow import _LocalOperand
+                from mir import Operand
+
+                d = norm(fl.describe(Operand({"k": "copy", "place": {"l": rv.place.local, "p": rv.place.proj, "ty": rv.place.ty}}), depth=8))
+                nm = "is_some" if pty.startswith("std::option::Option<") else "is_ok"
+                return ("optdiscr", "%s(%s)" % (nm, fmt_desc(d)), nm == "is_some")
             fp = fl.field_path(rv.place)
             ep = self._enum_path(rv.place.ty)
             if ep:
@@ -101,6 +119,13 @@ class Explorer:
             return None
         if not place.proj and self.b.local_name(place.local) is None:
             return None
+        if place.proj and self.b.local_name(place.local) is None:
+            # a component of a tuple built just before (`match (a, b) { .. }`): the component's own description
+            from mir import Operand
+
+            d = norm(self.fl.describe(Operand({"k": "copy", "place": {"l": place.local, "p": place.proj, "ty": place.ty}}), depth=8))
+            if isinstance(d, tuple) and d[0] in ("place", "call"):
+                return ("atom", fmt_desc(d), False)
         return ("atom", self.fl.field_path(place), False)
 
     # ---- exploration
@@ -118,6 +143,8 @@ class Explorer:
                 self.truncated = True
                 break
             bb, facts, binds, marks = work.pop()
+            if bb in self.headers:
+                facts = frozenset((k, v) for (k, v) in facts if self.stable(k))
             at_block.setdefault(bb, set()).add((facts, marks))
             fd = dict(facts)
             bd = dict(binds)
@@ -210,6 +237,21 @@ class Explorer:
                                         feasible = False
                                     else:
                                         nf[key] = tv
+                                        if tv and not self._order_consistent(key, nf):
+                                            feasible = False
+                        elif val[0] == "optdiscr":
+                            key = val[1]
+                            if self.keep(key):
+                                vals = {v for v in (0, 1) if target_of(v) == s_}
+                                if not vals:
+                                    feasible = False
+                                elif len(vals) == 1:
+                                    # Option: Some = 1 is "true"; Result: Ok = 0 is "true"
+                                    tv = (1 in vals) if val[2] else (0 in vals)
+                                    if key in nf and nf[key] != tv:
+                                        feasible = False
+                                    else:
+                                        nf[key] = tv
                         elif val[0] == "enumeq":
                             key = ("enum", val[1])
                             if self.keep(val[1]):
@@ -255,6 +297,32 @@ class Explorer:
                         work.append(st)
         self.at_block = at_block
         return exits
+
+    @staticmethod
+    def _order_consistent(key, facts):
+        """at most one of a > b, b > a, a == b holds: a state that claims two of them is infeasible"""
+        import re as _re
+
+        m = _re.match(r"^(Gt|Eq)\((.*)\)$", key)
+        if not m:
+            return True
+        body = m.group(2)
+        # split the two operands at the top-level comma
+        depth = 0
+        cut = None
+        for i, ch in enumerate(body):
+            if ch in "([":
+                depth += 1
+            elif ch in ")]":
+                depth -= 1
+            elif ch == "," and depth == 0:
+                cut = i
+                break
+        if cut is None:
+            return True
+        a, b = body[:cut].strip(), body[cut + 1:].strip()
+        rivals = {"Gt(%s, %s)" % (a, b), "Gt(%s, %s)" % (b, a), "Eq(%s, %s)" % (a, b), "Eq(%s, %s)" % (b, a)} - {key}
+        return not any(facts.get(r) is True for r in rivals)
 
     def _enum_path(self, ty):
         t = ty.lstrip("&").strip()
